@@ -39,6 +39,7 @@ type (
 		Body   Expr
 		Pats   []Expr
 		PatGroups [][]Expr
+		InStr  Expr // "forall c in s": c ranges over the bytes of s
 	}
 	EOld  struct{ X Expr }
 	ECast struct { // x.(T) — "has dynamic type T" when used as bool is written isType(x, T)
@@ -312,6 +313,13 @@ func (p *parser) expr() Expr {
 		for {
 			var names []string
 			names = append(names, p.ident())
+			if len(names) == 1 && p.isId("in") {
+				// forall c in s :: body   — c ranges over the bytes of string s
+				p.p++
+				q.InStr = p.orExpr()
+				q.Vars = append(q.Vars, Binder{names[0], TypeExpr{"int"}})
+				break
+			}
 			for p.accept(",") {
 				names = append(names, p.ident())
 			}
@@ -592,6 +600,7 @@ type SpecFunc struct {
 	Ret    TypeExpr
 	Body   Expr // nil => uninterpreted
 	Line   string
+	Opaque bool // body is hidden unless the contract says `reveal <name>`
 }
 
 type GhostField struct {
@@ -646,7 +655,7 @@ type ContractFile struct {
 var clauseKeywords = map[string]bool{
 	"requires": true, "ensures": true, "assigns": true, "loop": true, "arith": true, "strings": true,
 	"may_panic": true, "check": true, "assumed": true, "effect": true, "ghostparam": true, "nocheck": true,
-	"pure": true, "inline": true, "bind": true, "let": true, "mode": true, "callsite": true, "unrollall": true, "fresh": true,
+	"pure": true, "inline": true, "reveal": true, "bind": true, "let": true, "mode": true, "callsite": true, "unrollall": true, "fresh": true,
 }
 var topKeywords = map[string]bool{
 	"func": true, "spec": true, "axiom": true, "lemma": true, "invariant": true, "smt": true, "ghost": true, "bvtype": true, "bvtypes": true, "const": true,
@@ -727,7 +736,15 @@ func parseContractLines(pkg, path string, lines []string, linenos []int) (*Contr
 					cf.SpecTypes[strings.TrimSpace(rest2[:k])] = strings.TrimSpace(rest2[k+1:])
 				}
 			case "func":
+				opaque := false
+				if strings.HasPrefix(rest2, "opaque ") {
+					opaque = true
+					rest2 = strings.TrimSpace(rest2[len("opaque "):])
+				}
 				sf, err := parseSpecFunc(rest2)
+				if sf != nil {
+					sf.Opaque = opaque
+				}
 				if err != nil {
 					return nil, fail(err)
 				}
@@ -759,7 +776,7 @@ func parseContractLines(pkg, path string, lines []string, linenos []int) (*Contr
 				return nil, fail(fmt.Errorf("clause %q outside func", w))
 			}
 			switch w {
-			case "arith", "strings", "check", "nocheck", "mode":
+			case "arith", "strings", "check", "nocheck", "mode", "reveal":
 				cur.Options[w] = strings.TrimSpace(cur.Options[w] + " " + rest)
 			case "may_panic", "pure", "inline", "unrollall":
 				cur.Options[w] = "true"
